@@ -330,7 +330,7 @@ def fuzz(chk, seed, runs_per_job, jobs):
 def finalize(chk):
     if chk.tier == "thorough" and not os.environ.get("VERIF_NO_FUZZ"):
         try:
-            fuzz(chk, chk.seed, int(os.environ.get("VERIF_FUZZ_RUNS") or 800000), vc.NCPU)
+            fuzz(chk, chk.seed, int(os.environ.get("VERIF_FUZZ_RUNS") or 300000), vc.NCPU)
         except vc.HarnessError as e:
             chk.infra.append(str(e))
 
